@@ -4,7 +4,7 @@
     operation fails with an internal error. *)
 From InvokeVerif Require Import Common.Tree Common.StrUtil Model.MergeModel Model.ConfigModel
      Spec.C03Spec Spec.C06Spec Proofs.ListFacts Proofs.TreeFacts Proofs.C03_merge Proofs.C03_levels
-     Proofs.C03_order Proofs.C06_shapes Proofs.C06_track.
+     Proofs.C03_order Proofs.C06_shapes Proofs.C06_track Model.EnvModel Proofs.C06_envfacts.
 
 (** * merge() split into "lower levels" and "modifications, then deletions" *)
 Definition lower (c : cfg) : list tree :=
@@ -93,6 +93,20 @@ Proof.
   intros q. rewrite Sd. symmetry. apply (inv_rep _ _ _ _ HI X WX CX).
 Qed.
 
+(** The view conforms to the schema (it only shows what the levels and the
+    modifications show). *)
+Lemma good_cache_conforms S c J : is_node S = true -> good S c J ->
+  wf (Node (c_cache c)) = true /\ conforms S (Node (c_cache c)).
+Proof.
+  intros HS [HL HI HC].
+  destruct (good_merge_ok S c J HS HL HI) as [X [d [EX [WX [CX [Em [Wd Sd]]]]]]].
+  rewrite HC in Em. inversion Em; subst d. split; [exact Wd|].
+  intros q s Hq. rewrite Sd in Hq. destruct (masked (c_dels c) q); [discriminate|].
+  destruct (shape_at q (Node (c_mods c))) as [s1|] eqn:E1; simpl in Hq.
+  - inversion Hq; subst s1. exact (inv_confM _ _ _ _ HI q s E1).
+  - exact (CX q s Hq).
+Qed.
+
 (** * Navigation success tells that nothing above is masked *)
 Lemma nav_shapes fl : forall kp d d', nav fl d kp = Ok d' ->
   forall q r, kp = q ++ r -> shape_at q (Node d) = Some SNode.
@@ -174,6 +188,7 @@ Definition op_ok (S : tree) (o : op) : bool :=
   | Update _ kp kvs =>
       forallb (fun kv => match snd kv with Leaf _ => leaf_in S (kp ++ [fst kv]) | Node _ => false end) kvs
   | LoadDefaults t | LoadOverrides t | LoadCollection t => level_okb S t
+  | LoadShellEnv _ => true
   | _ => false
   end.
 
@@ -211,8 +226,11 @@ Definition events_of (c : cfg) (o : op) : list event :=
   | _ => []
   end.
 
+(** No internal error: a missing key (or walking through a leaf), or one of the
+    three documented refusals of load_shell_env. *)
 Definition benign (o : outcome) : Prop :=
-  forall e, o = OErr e -> e = EKey \/ e = EAttr \/ e = EType.
+  forall e, o = OErr e ->
+    e = EKey \/ e = EAttr \/ e = EType \/ e = EAmbigEnv \/ e = EValue \/ e = EUncastable.
 
 Lemma miss_benign fl : benign (OErr (miss fl)).
 Proof. intros e H. inversion H. destruct fl; auto. Qed.
@@ -484,6 +502,20 @@ Proof.
   - (* LoadCollection *)
     destruct (step_reload S c J (set_collection c t) t HS HG (level_okb_ok S t Hok)) as [d [Er Hg]]; [auto|].
     unfold merged. rewrite Er. simpl. rewrite app_nil_r. split; [exact Hg | intros e H; discriminate].
+  - (* LoadShellEnv *)
+    rewrite app_nil_r. destruct HG as [HL HI HC].
+    destruct (remerge_good S c J ONone HS HL HI) as [d1 [Er1 Hg1]]. rewrite Er1.
+    destruct (good_cache_conforms S _ J HS Hg1) as [Wc1 Cc1].
+    destruct (load (Node (c_cache (set_cache c d1))) (c_env_prefix (set_cache c d1)) env) as [dd|e] eqn:El.
+    + destruct (load_level_ok S _ _ _ dd HS Wc1 Cc1 El) as [Wdd Cdd].
+      destruct Hg1 as [HLa HIa HCa].
+      destruct (remerge_good S (set_env (set_cache c d1) (Node dd)) J ONone HS) as [d2 [Er2 Hg2]].
+      * unfold lower in *. lower_inv HLa. destruct c; simpl in *.
+        repeat (constructor; try assumption).
+      * destruct c; exact HIa.
+      * unfold merged. rewrite Er2. simpl. split; [exact Hg2 | intros e H; discriminate].
+    + simpl. split; [exact Hg1|]. intros e' H. inversion H; subst e'.
+      destruct (load_err_kind _ _ _ _ Wc1 El) as [ -> | [ -> | -> ] ]; auto 10.
 Qed.
 
 (** * Histories *)
